@@ -556,7 +556,7 @@ func genC15(tier string, seed uint64, n int, e *Emitter) {
 	}
 	two := c15Schedules(2, 8)
 	three := c15Schedules(3, 10)
-	budget2, budget3 := 900, 150
+	budget2, budget3 := 600, 100
 	if tier == "thorough" {
 		budget2, budget3 = len(two), 6000
 	}
